@@ -1,6 +1,7 @@
 //! `wfh <family> <seed> <n> <outdir>`: runs the real winterfell crates on generated inputs.
 //! Writes `<outdir>/<family>.qa` (Q/A line pairs, see `out.rs`) and `<outdir>/<family>.stats.json`.
 mod c26;
+mod c27;
 mod out;
 mod rng;
 
@@ -20,6 +21,8 @@ fn main() {
     let mut out = out::Out::new(&format!("{outdir}/{fam}.qa"));
     match fam {
         "c26" => c26::run(&mut rng, &mut out, n),
+        "c27" => c27::run(&mut rng, &mut out, n),
+        "c27x" => c27::run_exhaustive(&mut out, n),
         _ => {
             eprintln!("unknown family {fam}");
             std::process::exit(2);
